@@ -71,9 +71,20 @@ def check(ctx):
            "module m; initial x = f(a %s b); endmodule\n", "class c; constraint k { x inside {[(a %s b):3]}; } endclass\n"]
     zoo = [("sv", cx % op) for op in OPS for cx in CTX]
     srcs += zoo if not q else r.sample(zoo, 12) + [("sv", CTX[0] % "->"), ("sv", CTX[3] % "->")]
+    # long operands: enough memo insertions between two uses of an entry to evict it at the default capacity
+    longs = []
+    for n in ((7, 9, 20) if q else (5, 6, 7, 8, 9, 12, 18, 19, 20, 24, 40)):
+        terms = ["b%d" % j for j in range(n)]
+        longs += [("sv", "module m; assign x = a ? (%s) : c; endmodule\n" % "+".join(terms)),
+                  ("sv", "module m; assign x = a ? {%s} : c; endmodule\n" % ",".join(terms)),
+                  ("sv", "module m; assign x = a ? %s : c; endmodule\n" % "+".join(terms)),
+                  ("sv", "module m; assign x = a ? c : %s; endmodule\n" % "+".join(terms)),
+                  ("sv", "module m; initial x = f(%s) + g[%s] ? y : z; endmodule\n" % (",".join(terms), "+".join(terms))),
+                  ("sv", "module m; always @(%s) x = 1; endmodule\n" % " or ".join(terms))]
+    srcs += longs
     c2, meta = [], {}
     for i, (k, s) in enumerate(srcs):
-        small = len(s) <= 120 or k == "pp"
+        small = (len(s) <= 120 or k == "pp") and (k, s) not in longs     # the long operands are exponential at tiny capacities
         for cap in (CAPS_SMALL if small else CAPS_BIG):
             c = Case("m%d_%s" % (i, cap))
             c.add("want", "tree", "text").add("memo", cap)
